@@ -206,6 +206,8 @@ define_ops! {
     // a constructor driven by a float: None, or a canonical value (its numeric accuracy is not claimed by any property)
     approx_pow2 = |f: F64| Uint::<B, L>::approx_pow2(f);
     approx_pow2_of_log2 = |a: U| Uint::<B, L>::approx_pow2(a.approx_log2());
+    // provided methods of Ord / Clone / PartialOrd (an override that diverges from the default would show here)
+    ord_extras = |a: U, b: U, c: U| { let (lo, hi) = if b <= c { (b, c) } else { (c, b) }; let mut x = c; x.clone_from(&a); V::T(vec![a.clamp(lo, hi).into_v(), x.into_v(), a.clone().into_v(), Ord::max(a, b).into_v(), Ord::min(a, b).into_v(), core::cmp::max(&a, &b).into_v(), PartialOrd::lt(&a, &b).into_v(), PartialOrd::le(&a, &b).into_v(), PartialOrd::gt(&a, &b).into_v(), PartialOrd::ge(&a, &b).into_v(), PartialEq::ne(&a, &b).into_v(), [a, b].cmp(&[b, a]).into_v(), ([a, b] == [a, c]).into_v(), [a, b].iter().max().copied().into_v(), [a, b, c].iter().min().copied().into_v()]) };
     cmp_alias = |a: U| { let (x, y) = (&a, &a); V::T(vec![(x == y).into_v(), (x != y).into_v(), (x < y).into_v(), (x <= y).into_v(), (x > y).into_v(), (x >= y).into_v(), x.cmp(y).into_v(), x.partial_cmp(y).map(|o| o as i8).into_v(), (*x.min(y)).into_v(), (*x.max(y)).into_v(), (h(x) == h(y)).into_v(), x.is_zero().into_v()]) };
     routes = |a: U, b: U, e: U| { let r = a.wrapping_add(b); let r2 = b.wrapping_add(a); (r == e, r2 == e, h(&r) == h(&e), h(&r2) == h(&e), r.cmp(&e) as i8, e == Uint::from_limbs(r.into_limbs()) && r.into_limbs() == *r.as_limbs()) };
     // ---- part 3: rejecting constructors
@@ -583,6 +585,18 @@ fn model(bits: usize, op: Op, args: &[V]) -> Expect {
             .nt(true)
         }
         approx_pow2 | approx_pow2_of_log2 => pred("None or Some(canonical value)", |g| matches!(g, V::None) || matches!(g, V::Some(x) if matches!(**x, V::U(_)))).nt(true),
+        ord_extras => {
+            let (a, b, c) = (big(args[0].limbs()), big(args[1].limbs()), big(args[2].limbs()));
+            let (lo, hi) = if b <= c { (b.clone(), c.clone()) } else { (c.clone(), b.clone()) };
+            let cl = if a < lo { lo.clone() } else if a > hi { hi.clone() } else { a.clone() };
+            let o = |x: std::cmp::Ordering| V::I(x as i8 as i128);
+            is(V::T(vec![
+                u(&cl, bits), u(&a, bits), u(&a, bits), u(if a >= b { &a } else { &b }, bits), u(if a <= b { &a } else { &b }, bits), u(if a > b { &a } else { &b }, bits),
+                V::B(a < b), V::B(a <= b), V::B(a > b), V::B(a >= b), V::B(a != b), o([&a, &b].cmp(&[&b, &a])), V::B(b == c),
+                V::some(u(if a > b { &a } else { &b }, bits)), V::some(u((&a).min(&b).min(&c), bits)),
+            ]))
+            .nt(true)
+        }
         cmp_alias => model(bits, cmp_all, &[args[0].clone(), args[0].clone()]),
         routes => is(V::T(vec![V::B(true), V::B(true), V::B(true), V::B(true), V::I(0), V::B(true)])).nt(true),
         from_limbs | bits_from_limbs => {
@@ -689,6 +703,12 @@ fn c04(r: &Runner) {
             let a = vu(&uv[i]);
             let ba = big(&uv[i]);
             exec(l, bits, Op::cmp_alias, &[a.clone()]);
+            // triples on a thinner third axis
+            for b in uv.iter().step_by((uv.len() / 24).max(1)) {
+                for c in uv.iter().step_by((uv.len() / 12).max(1)) {
+                    exec(l, bits, Op::ord_extras, &[a.clone(), vu(b), vu(c)]);
+                }
+            }
             for b in &uv {
                 l.states(1);
                 exec(l, bits, Op::cmp_all, &[a.clone(), vu(b)]);
